@@ -147,7 +147,7 @@ func (w *c20World) apply(r *Rec, op string) string {
 		r.Count("reward.accepted")
 		w.reward = rw
 		return "ok"
-	case "fund":
+	case "fund", "fundraw":
 		d := string(unhx(f[1]))
 		w.see(d)
 		amt, _ := sdk.NewIntFromString(f[2])
@@ -157,6 +157,14 @@ func (w *c20World) apply(r *Rec, op string) string {
 		}
 		if err := w.app.BankKeeper.SendCoinsFromModuleToModule(w.ctx, "aggregate", rvestingtypes.ModuleName, c); err != nil {
 			return "err"
+		}
+		if f[0] == "fundraw" {
+			// the state a bank-genesis balance without an auth-genesis account produces: the pool address holds coins
+			// but no account object exists for it (balances and accounts are independent stores)
+			if acc := w.app.AccountKeeper.GetAccount(w.ctx, w.pool); acc != nil {
+				w.app.AccountKeeper.RemoveAccount(w.ctx, acc)
+			}
+			r.Count("fund.no-account")
 		}
 		return "ok"
 	case "block":
@@ -323,7 +331,11 @@ func c20GenHistory(r *Rec) []string {
 				cur, _ := new(big.Int).SetString(orZero(pools[d]), 10)
 				add, _ := new(big.Int).SetString(a, 10)
 				pools[d] = cur.Add(cur, add).String()
-				h = append(h, "fund "+hxs(d)+" "+a)
+				if r.Rng.Intn(4) == 0 {
+					h = append(h, "fundraw "+hxs(d)+" "+a)
+				} else {
+					h = append(h, "fund "+hxs(d)+" "+a)
+				}
 			}
 			perm := r.Rng.Perm(4)
 			k := 1 + r.Rng.Intn(3)
